@@ -175,8 +175,13 @@ def _script(r, client, world, counter):
         elif g == "files":
             path = r.choice(["a", "b", "Ω", "a.b", "x.y.z", "net v2"]) + "." + fmt
             asp = r.random() < 0.3
-            k = r.choice(["dump_load", "dump_load", "load", "dump", "put_load"])
-            if k == "dump_load":
+            k = r.choice(["dump_load", "dump_load", "load", "dump", "put_load", "overwrite"])
+            if k == "overwrite":
+                j = r.randrange(world["nd"])
+                add("ld.dump", {"path": path, "doc": P(f"doc{i}")})
+                add("ld.dump", {"path": path, "doc": P(f"doc{j}t")})
+                add("ld.load", {"path": path})
+            elif k == "dump_load":
                 add("ld.dump", {"path": path, "doc": P(f"doc{i}"), "as_path": asp})
                 add("ld.load", {"path": path, "as_path": r.random() < 0.3})
                 if r.random() < 0.4:      # overwrite with a same-size twin and load again (defeats (mtime, size) caches)
